@@ -19,6 +19,7 @@ from spacepackets.cfdp.tlv import EntityIdTlv, TlvType
 from spacepackets.crc import CRC16_CCITT_FUNC
 
 from props.c06_fixed import (
+    unpack_tolerant,
     _conf, _pdu_common, _repack, _pack_fails, _enum, spec_pdu, spec_hdr, with_crc, fss, rand_conf, all_confs, fss_pool,
     fss_val, fss_bad, rand_val, vmax, bad_conf_cases, CONF_KEYS, COND_MEMBERS, U32, U64,
     _built, _isolated, _eq_op, contrast_conf,
@@ -148,7 +149,7 @@ def op_eof_pack_fails(a):
 
 def op_eof_unpack(a):
     raw = unhx(a["raw"])
-    return _decoded(EofPdu.unpack(raw), _eof_fields, raw)
+    return _decoded(unpack_tolerant(EofPdu, raw), _eof_fields, raw)
 
 
 def _set_attr(name, conv=lambda v: v):
@@ -231,7 +232,7 @@ def op_fin_pack(a):
 
 def op_fin_unpack(a):
     raw = unhx(a["raw"])
-    return _decoded(FinishedPdu.unpack(raw), _fin_fields, raw)
+    return _decoded(unpack_tolerant(FinishedPdu, raw), _fin_fields, raw)
 
 
 FIN_SETTERS = {"fault": _set_attr("fault_location", _fault), "cond": _set_attr("condition_code", lambda v: _enum(ConditionCode, v)),
@@ -325,7 +326,7 @@ def op_md_pack_fails(a):
 
 def op_md_unpack(a):
     raw = unhx(a["raw"])
-    return _decoded(MetadataPdu.unpack(raw), _md_fields, raw)
+    return _decoded(unpack_tolerant(MetadataPdu, raw), _md_fields, raw)
 
 
 MD_SETTERS = {"options": _set_attr("options", _options), "src": _set_attr("source_file_name", _opt_name),
@@ -346,6 +347,22 @@ OPS = {
     "md_new": op_md_new, "md_pack": op_md_pack, "md_pack_fails": op_md_pack_fails, "md_unpack": op_md_unpack,
     "md_set": op_md_set, "md_eq": _eq_op(_md),
 }
+
+
+def _encoder_failure_is_refusal(fn):
+    """C06 asks of an encoder only that an unencodable parameter set makes pack() FAIL rather than truncate; which
+    class it fails with is not stated (C10 is about decoders). struct.error / OverflowError from an encoder op are
+    therefore reported like the ValueError the model shows."""
+    def wrapped(a):
+        try:
+            return fn(a)
+        except (struct.error, OverflowError) as e:
+            raise ValueError(f"(canonicalised encoder failure) {type(e).__name__}: {e}") from e
+    return wrapped
+
+
+for _k in [k for k in OPS if k.endswith(("_pack", "_new", "_set", "_set_segs", "_set_file_flag"))]:
+    OPS[_k] = _encoder_failure_is_refusal(OPS[_k])
 
 
 # --------------------------------------------------------------------------------------------
